@@ -11,7 +11,12 @@ values are sampled.
 2. The Rust engine `wirecodec` builds seeded values of every message kind wire.rs dispatches,
    applies the abstract shapes to their real encodings (and generates truncations at every prefix,
    out-of-range patches, single-byte mutations, random strings), runs the real decoders (per-kind
-   codec, wire::read, a loop-back PeerManager pair) and records what it observed.
+   codec, wire::read, a loop-back PeerManager pair) and records what it observed.  The size classes
+   TLC enumerates (0, 1, b-1, b, b+1, 2b-1, 2b, 2b+1 for the codec-internal boundaries b = 64, 253,
+   4096; random; the maximum that fits into a 65535-byte message) are applied to every
+   variable-length field of every kind, to the value of an unknown odd TLV and to the payload of
+   unknown message types; the trace spec also checks that the measured length is the one the class
+   denotes.
 3. TLC validates every record against Verdict(shape) of Wire.tla (spec/WireTrace.tla).
 """
 import json, os, random, time
@@ -19,7 +24,7 @@ import vlib
 
 PID = "C13"
 
-NONTRIVIAL_SRC = ("tlc", "truncate", "fixed_badvalue", "inner_length", "typeid", "peer_typeid", "construct")
+NONTRIVIAL_SRC = ("tlc", "truncate", "fixed_badvalue", "inner_length", "typeid", "peer_typeid", "construct", "size")
 
 
 def gen_cases(wd, thorough):
@@ -116,6 +121,17 @@ def selftest(wd, good):
     add("inner-overrun-accepted", first(lambda r: r["src"] == "inner_length" and r["m"]["inner"] == "overrun"), obs="accept", eq=True, rt=True, canon=False)
     add("inner-length-not-reencoded", first(lambda r: r["src"] == "inner_length" and r["m"]["inner"] in ("boundary", "retained") and r["cexp"] and r["obs"] == "accept"), canon=False)
     add("over-read", first(lambda r: r["obs"] == "accept"), over=True)
+    # size classes: the verdict is bound to the record, and the measured length to the class
+    sized = lambda r, pos=None: r["src"] == "size" and (pos is None or r["m"]["size"]["pos"] in pos)
+    add("sized-field-not-decoded", first(lambda r: sized(r, ("2bp1",)) and r["level"] == "codec" and r["obs"] == "accept"), obs="reject", eq=False, rt=False)
+    add("sized-field-decoded-differently", first(lambda r: sized(r, ("bp1",)) and r["level"] == "codec" and r["obs"] == "accept"), eq=False)
+    k = first(lambda r: sized(r, ("b", "2b")) and r["level"] == "codec")
+    add("size-class-not-exercised", k, n=(recs[k]["n"] + 1) if k is not None else 0)
+    k = first(lambda r: sized(r, ("max",)) and r["level"] == "codec")
+    add("max-size-not-maximal", k, total=(recs[k]["total"] - 4000) if k is not None else 0)
+    k = first(lambda r: sized(r, ("rand",)) and r["level"] == "codec")
+    add("sized-message-not-a-message", k, total=65536)
+    add("sized-odd-payload-disconnects", first(lambda r: sized(r) and r["level"] == "peer" and r["obs"] == "ignore"), obs="reject")
     add("panic", first(lambda r: r["m"]["opaque"]), ev="panic", obs="panic")
     rejected = 0
     for name, m in muts:
@@ -128,7 +144,7 @@ def selftest(wd, good):
             rejected += 1
         else:
             vlib.log("[selftest] corruption %s was NOT rejected" % name)
-    if rejected != len(muts) or len(muts) < 10:
+    if rejected != len(muts) or len(muts) < 16:
         raise vlib.ToolError("binding self-test: %d of %d corrupted traces rejected" % (rejected, len(muts)))
     return {"mutations": len(muts), "rejected": rejected}
 
@@ -150,7 +166,8 @@ def run(tier, seed):
     dpath = os.path.join(wd, "detail.ndjson")
     p = vlib.run_bin(bins["wirecodec"], engine_args(tier, seed, cpath, tpath, dpath), timeout=3000)
     summ = json.loads(p.stdout.strip().splitlines()[-1])
-    vlib.log("[wirecodec] %s" % {k: summ[k] for k in ("cases", "kinds", "tlv_kinds_bound", "by_src", "by_obs", "panics", "unconcretizable")})
+    vlib.log("[wirecodec] %s" % {k: summ[k] for k in ("cases", "kinds", "tlv_kinds_bound", "by_src", "by_obs", "panics", "unconcretizable",
+                                                       "size_unconcretizable", "peer_failures")})
 
     # ---- 3. trace validation (the oracle)
     total, fails = validate_chunked(tpath)
@@ -176,7 +193,7 @@ def run(tier, seed):
         if vlib.report_violation(PID, "%s-run%d" % (rec.get("kind", "x"), runid), {
                 "property": PID, "kind": fl["kind"], "message_kind": rec.get("kind"), "level": rec.get("level"),
                 "family": rec.get("src"), "abstract_message": rec.get("m"), "model_verdict": model,
-                "observed": {k: rec.get(k) for k in ("ev", "obs", "exp", "eq", "rt", "over", "cexp", "canon")},
+                "observed": {k: rec.get(k) for k in ("ev", "obs", "exp", "eq", "rt", "over", "cexp", "canon", "n", "unit", "total")},
                 "detail": detail,
                 "how_to_replay": "harness/target/debug/wirecodec %s --only %d ; the `hex` of `detail` is the input "
                                  "(payload for level codec, type-prefixed for wire/peer); "
@@ -186,13 +203,17 @@ def run(tier, seed):
             nviol += 1
 
     # ---- 4. vacuity guards + binding self-test (only meaningful on an accepted trace)
+    # (all guards that depend on what the code under test did come after the verdicts and only apply
+    # when no violation was found: a broken library must give exit 1, not a tool error)
     st = None
     if not fails:
+        if summ["peer_failures"]:
+            raise vlib.ToolError("the loop-back PeerManager pair could not be set up in %d cases" % summ["peer_failures"])
         if summ["kinds_built"] != summ["kinds"]:
             raise vlib.ToolError("vacuity: %d of %d message kinds could be built" % (summ["kinds_built"], summ["kinds"]))
         if summ["tlv_kinds_bound"] != summ["tlv_kinds"]:
             raise vlib.ToolError("vacuity: TLV records of %d/%d TLV kinds could be located" % (summ["tlv_kinds_bound"], summ["tlv_kinds"]))
-        for src in ("roundtrip", "tlc", "truncate", "fixed_badvalue", "inner_length", "mutate", "random", "typeid", "peer_typeid"):
+        for src in ("roundtrip", "tlc", "truncate", "fixed_badvalue", "inner_length", "mutate", "random", "typeid", "peer_typeid", "size"):
             if summ["by_src"].get(src, 0) == 0:
                 raise vlib.ToolError("vacuity: family %s produced no case" % src)
         if summ["by_obs"].get("accept", 0) * 20 < summ["cases"] or summ["by_obs"].get("reject", 0) * 20 < summ["cases"]:
@@ -203,12 +224,26 @@ def run(tier, seed):
             lines = f.read().splitlines()
         # a slice of every family
         seen = {}
+        sized_seen = {}
         for ln in lines:
             r = json.loads(ln)
-            k = (r["src"], r["level"], r["obs"], r["m"]["tid"], r["m"]["fixed"], r["m"]["inner"], len(r["m"]["recs"]) > 0, r["m"]["opaque"])
+            z = r["m"]["size"]
+            if r["src"] == "size":
+                zk = (z["at"], z["bnd"], z["pos"], r["m"]["tid"] == "known")
+                sized_seen[zk] = sized_seen.get(zk, 0) + 1
+            k = (r["src"], r["level"], r["obs"], r["m"]["tid"], r["m"]["fixed"], r["m"]["inner"], len(r["m"]["recs"]) > 0, r["m"]["opaque"],
+                 z["pos"], z["bnd"])
             if seen.get(k, 0) < 3:
                 seen[k] = seen.get(k, 0) + 1
                 head.append(ln)
+        # every size class TLC enumerated was exercised on real encodings, the byte-granular ones on
+        # many fields
+        for c in cases:
+            z = c["m"]["size"]
+            if z["pos"] != "none":
+                zk = (z["at"], z["bnd"], z["pos"], c["m"]["tid"] == "known")
+                if sized_seen.get(zk, 0) < (20 if zk[3] else 4):
+                    raise vlib.ToolError("vacuity: size class %s ran on %d fields only" % (zk, sized_seen.get(zk, 0)))
         st = selftest(wd, head)
         vlib.log("[selftest] %s" % st)
 
@@ -232,7 +267,9 @@ def run(tier, seed):
                 "present known records denote, and decode(encode(decoded)) = decoded (+ encode(decoded) = input bytes where an inner "
                 "declared length ends on an element boundary / covers retained data); reject => DecodeError (incl. any element "
                 "or region overrunning its declared inner length); ignore => unknown "
-                "odd type surfaced as Unknown / connection kept; any (opaque bytes) => no panic, no over-read, re-encoding stable",
+                "odd type surfaced as Unknown / connection kept; any (opaque bytes) => no panic, no over-read, re-encoding stable; "
+                "size family: the measured element count of the sized field is the one its class denotes (SizeOK), the message "
+                "fits into 65535 bytes and, for class max, one more element would not",
         "samples": samples,
         "abstract_cases_from_tlc": len(cases),
         "abstract_cases_by_verdict": by_verdict,
@@ -241,11 +278,18 @@ def run(tier, seed):
         "message_kinds": summ["kinds"], "tlv_kinds": summ["tlv_kinds"], "wire_dispatched_kinds": summ["wire_kinds"],
         "cases_by_family": per_src, "observations": summ["by_obs"],
         "abstract_cases_not_concretizable": summ["unconcretizable"],
+        "size_classes_from_tlc": sum(1 for c in cases if c["m"]["size"]["pos"] != "none"),
+        "size_cases_not_concretizable": summ["size_unconcretizable"],
         "impl_panics": summ["panics"], "binding_selftest": st,
         "exhaustive": False,
     }
     vlib.write_evidence(PID, tier, seed, "exploration", cov, [
-        "field values are sampled (seeded), only the message grammar is enumerated by TLC",
+        "field values are sampled (seeded), only the message grammar (incl. the size class of one variable-length field per "
+        "case) is enumerated by TLC",
+        "size classes are applied to one field at a time, on a value whose other fields are small; the boundaries are the ones "
+        "found in the codec (64: io_extras copy/read_to_end, 253: BigSize/CollectionLength, 4096: onion-message packet, "
+        "65535: u16 prefixes / message limit, reached only as class max); a field whose type cannot hold a class "
+        "(hostname > 255, prevtx of 1..59 bytes, >= 8192 short ids) is skipped and counted",
         "ChannelUpdate values have the must-be-one message flag set and NodeAnnouncement.excess_address_data starts with an "
         "address type this version does not know (what the library itself constructs / retains)",
         "reads past the outer message length are excluded by the LengthLimitedRead contract; confinement to inner declared "
